@@ -18,11 +18,9 @@ bit per path, has_filename/is_versioned for every known path, extras) must
 equal the tree re-opened after `apply()` and the directory snapshot; `apply()`
 must not raise; after any exception the before state must be intact.
 """
-import itertools
 import os
 import shutil
 import signal
-import stat
 import sys
 import traceback
 
@@ -201,26 +199,22 @@ def alphabet(level):
 
 
 def static_count(level, depth):
-    """Number of sequences of exactly 0..depth operations offered by the alphabet (before misuse pruning)."""
+    """Number of operation sequences of each length 0..depth offered by the alphabet (before misuse pruning).
+    The offer after a prefix only depends on which positions created entries (and of what kind), so prefixes
+    are counted by that signature."""
     al = alphabet(level)
     counts = [1]
-    frontier = [()]
-    # the offer only depends on the multiset of handle kinds, so count by that signature
     sig_count = {(): 1}
     for _ in range(depth):
         nxt = {}
         total = 0
         for sig, c in sig_count.items():
-            prog = tuple(sig)
-            for op in al.next_ops(prog):
+            for op in al.next_ops(sig):
                 total += c
                 s2 = sig + ((op if op[0] in CREATORS else ("delete", "@a")),)
-                # keep only what handles() looks at: position, kind, versioned flag
                 nxt[s2] = nxt.get(s2, 0) + c
-        # compress: replace non-creators by a fixed placeholder (already done above)
         sig_count = nxt
         counts.append(total)
-    del frontier
     return counts
 
 
